@@ -98,8 +98,8 @@ theorem resolveKeyByID_some {E : Env} {at_ : Option Time} {kid : String} {k : Ke
       exact ⟨d, doc, hd, hr, lookupKey_mem h⟩
 
 /-- the linked-data proof conjuncts -/
-def LdSigned (cfg : Cfg) (P : Crypto) (E : Env) (at_ : Option Time) (issuer : String) (doc : Bytes) (s : ProofShape) : Prop :=
-  ∃ p k, s = .one p ∧ p.vm ≠ "" ∧ beforeHash p.vm = issuer ∧ AuthorisedAt E at_ p.vm k ∧
+def LdSigned (cfg : Cfg) (P : Crypto) (E : Env) (at_ : Option Time) (issuer : String) (doc : Bytes) (s : LdDoc) : Prop :=
+  s.caseVariant = false ∧ ∃ p k, s.proof = .one p ∧ p.vm ≠ "" ∧ beforeHash p.vm = issuer ∧ AuthorisedAt E at_ p.vm k ∧
     resolveKeyByID E at_ p.vm = some k ∧
     P.sigOK k (tbs P p doc) p.jws = true ∧ proofValidAt cfg p (atOf E at_) = true
 
@@ -109,43 +109,45 @@ def JwtSigned (cfg : Cfg) (P : Crypto) (E : Env) (at_ : Option Time) (issuer : S
     resolveKeyByID E at_ (jwtKeyID i.kid issuer) = some k ∧
     cfg.supportedAlgs.contains i.alg = true ∧ P.sigOK k (P.jwtInput raw) i.sig = true ∧ jwtTimeOK i (atOf E at_) = true
 
-theorem ld_accept_iff {cfg : Cfg} {P : Crypto} {E : Env} {at_ : Option Time} {issuer : String} {doc : Bytes} {s : ProofShape} :
+theorem ld_accept_iff {cfg : Cfg} {P : Crypto} {E : Env} {at_ : Option Time} {issuer : String} {doc : Bytes} {s : LdDoc} :
     runChecks (ldChecks cfg P E at_ issuer doc) s = .ok () ↔ (issuer ≠ "" ∧ LdSigned cfg P E at_ issuer doc s) := by
   rw [runChecks_ok_iff]
   constructor
   · intro h
+    have h0 := h ldNoCaseVariant (by simp [ldChecks])
     have h1 := h ldProofDecodes (by simp [ldChecks])
     have h2 := h ldProofPresent (by simp [ldChecks])
     have h3 := h (ldVmOfIssuer issuer) (by simp [ldChecks])
     have h4 := h (ldProofValidAt cfg E at_) (by simp [ldChecks])
     have h5 := h (ldKeyResolves E at_) (by simp [ldChecks])
     have h6 := h (ldSignature P E at_ doc) (by simp [ldChecks])
-    cases s with
-    | absent => simp [ldProofPresent] at h2
-    | malformed => simp [ldProofDecodes] at h1
+    simp only [ldNoCaseVariant, guard_pass_iff] at h0
+    cases hs : s.proof with
+    | absent => simp [ldProofPresent, hs] at h2
+    | malformed => simp [ldProofDecodes, hs] at h1
     | one p =>
-      simp only [ldProofPresent, guard_pass_iff] at h2
-      simp only [ldVmOfIssuer, guard_pass_iff] at h3
-      simp only [ldProofValidAt, guard_pass_iff] at h4
-      simp only [ldKeyResolves, guard_pass_iff] at h5
-      simp only [ldSignature] at h6
+      simp only [ldProofPresent, hs, guard_pass_iff] at h2
+      simp only [ldVmOfIssuer, hs, guard_pass_iff] at h3
+      simp only [ldProofValidAt, hs, guard_pass_iff] at h4
+      simp only [ldKeyResolves, hs, guard_pass_iff] at h5
+      simp only [ldSignature, hs] at h6
       cases hk : resolveKeyByID E at_ p.vm with
       | none => simp [hk] at h5
       | some k =>
         simp only [hk, guard_pass_iff] at h6
-        simp at h3 h2
-        refine ⟨?_, p, k, rfl, h2, h3.2, resolveKeyByID_some hk, hk, h6, h4⟩
+        simp at h3 h2 h0
+        refine ⟨?_, h0, p, k, hs, h2, h3.2, resolveKeyByID_some hk, hk, h6, h4⟩
         intro hi; rw [hi] at h3; exact h3.1 h3.2
-  · intro ⟨hi, p, k, hs, hvm, hb, _, hk, hsig, hv⟩ c hc
-    subst hs
+  · intro ⟨hi, hcv, p, k, hs, hvm, hb, _, hk, hsig, hv⟩ c hc
     simp [ldChecks] at hc
-    rcases hc with rfl | rfl | rfl | rfl | rfl | rfl
-    · simp [ldProofDecodes]
-    · simp [ldProofPresent, guard_pass_iff, hvm]
-    · simp only [ldVmOfIssuer, guard_pass_iff]; simp [hb, hi]
-    · simp [ldProofValidAt, guard_pass_iff, hv]
-    · simp [ldKeyResolves, guard_pass_iff, hk]
-    · simp [ldSignature, hk, guard_pass_iff, hsig]
+    rcases hc with rfl | rfl | rfl | rfl | rfl | rfl | rfl
+    · simp [ldNoCaseVariant, guard_pass_iff, hcv]
+    · simp [ldProofDecodes, hs]
+    · simp [ldProofPresent, hs, guard_pass_iff, hvm]
+    · simp only [ldVmOfIssuer, hs, guard_pass_iff]; simp [hb, hi]
+    · simp [ldProofValidAt, hs, guard_pass_iff, hv]
+    · simp [ldKeyResolves, hs, guard_pass_iff, hk]
+    · simp [ldSignature, hs, hk, guard_pass_iff, hsig]
 
 theorem jwt_accept_iff {cfg : Cfg} {P : Crypto} {E : Env} {at_ : Option Time} {issuer raw : String} {j : Option JwtInfo} :
     runChecks (jwtChecks cfg P E at_ issuer raw) j = .ok () ↔ JwtSigned cfg P E at_ issuer raw j := by
@@ -226,7 +228,7 @@ theorem issuerChecks_ok_iff (E : Env) (at_ : Option Time) (c : Cred) :
 
 def SigValid (cfg : Cfg) (P : Crypto) (E : Env) (at_ : Option Time) (c : Cred) : Prop :=
   match c.format with
-  | .ld => c.issuer ≠ "" ∧ LdSigned cfg P E at_ c.issuer (P.canon c.stripProof) c.proof
+  | .ld => c.issuer ≠ "" ∧ LdSigned cfg P E at_ c.issuer (P.canon c.stripProof) { proof := c.proof, caseVariant := c.caseVariant }
   | .jwt => JwtSigned cfg P E at_ c.issuer c.raw c.jwt
   | .other => False
 
